@@ -91,6 +91,41 @@ Proof. exact truf_count_exact. Qed.
 Theorem c18_truf_is_empty : forall adds st, tr_run tr_empty adds = Ok st -> (tr_is_empty st = true <-> adds = []).
 Proof. exact truf_is_empty. Qed.
 
+(* ================= TrRelUnionFind, histories that also call add_node_new ================= *)
+(* add_node_new (trrel_union_find.rs:107, pub(crate)) is what the trrel_uf provider calls on the elements of a
+   Delta: it creates a singleton class WITHOUT entries in set_connections / reverse_set_connections, and a later
+   add(x, x) returns early without creating them.  Such states violate only the clause "every live class has an
+   entry in both maps" of the invariant; the invariant without that clause ([tinv_weak], TrUfInv.v) is preserved
+   by add and add_node_new (UF/TrUfProofs.v: tr_add_inv for every exempt set P, ann_weak) and determines every
+   query: no unwrap in the code depends on such an entry.  Reference closure of a mixed history: rtc of
+   [pairs_of ops] = the added pairs plus (x, x) for every add_node_new x, i.e. x counts as mentioned. *)
+Theorem c18_truf_safe_with_add_node : forall ops, exists st, tr_run_ops tr_empty ops = Ok st.
+Proof. exact truf_ops_total. Qed.
+Theorem c18_truf_invariants_with_add_node : forall ops st, tr_run_ops tr_empty ops = Ok st ->
+  disjoint_ok st = true /\ dominant_ok st = true.
+Proof. exact truf_ops_asserts. Qed.
+Theorem c18_truf_contains_with_add_node : forall ops st, tr_run_ops tr_empty ops = Ok st -> forall x y,
+  exists b, tr_contains st x y = Ok b /\ (b = true <-> rtc (pairs_of ops) x y).
+Proof. exact truf_ops_contains. Qed.
+Theorem c18_truf_set_of_with_add_node : forall ops st, tr_run_ops tr_empty ops = Ok st -> forall x,
+  exists o, tr_set_of st x = Ok o /\ (o = None <-> ~ mentioned (pairs_of ops) x) /\
+            forall l, o = Some l -> NoDup l /\ forall y, In y l <-> rtc (pairs_of ops) x y.
+Proof. exact truf_ops_set_of. Qed.
+Theorem c18_truf_rev_set_of_with_add_node : forall ops st, tr_run_ops tr_empty ops = Ok st -> forall x,
+  exists o, tr_rev_set_of st x = Ok o /\ (o = None <-> ~ mentioned (pairs_of ops) x) /\
+            forall l, o = Some l -> NoDup l /\ forall y, In y l <-> rtc (pairs_of ops) y x.
+Proof. exact truf_ops_rev_set_of. Qed.
+Theorem c18_truf_iter_all_with_add_node : forall ops st, tr_run_ops tr_empty ops = Ok st ->
+  exists l, tr_iter_all st = Ok l /\ NoDup l /\ forall x y, In (x, y) l <-> rtc (pairs_of ops) x y.
+Proof. exact truf_ops_iter_all. Qed.
+Theorem c18_truf_count_exact_with_add_node : forall ops st, tr_run_ops tr_empty ops = Ok st ->
+  exists l, NoDup l /\ (forall x y, In (x, y) l <-> rtc (pairs_of ops) x y) /\ tr_count_exact st = Ok (length l).
+Proof. exact truf_ops_count_exact. Qed.
+(* one step, from any state satisfying the weak invariant (the form the provider proof consumes) *)
+Theorem c18_truf_step_with_add_node : forall E st o, tinv_weak E st ->
+  exists st' out, tr_step st o = Ok (st', out) /\ tinv_weak (E ++ pairs_of [o]) st'.
+Proof. exact tr_step_weak. Qed.
+
 (* ================= non-vacuity: concrete histories computed in the kernel VM ================= *)
 (* a back edge over a chain collapses three classes into one (sets 0 and 1 subsumed by 2; note the self loop
    2 -> 2 in set_connections without a counterpart in reverse_set_connections, exactly as in the Rust code) *)
@@ -112,8 +147,22 @@ Example c18_example_uf :
   = Ok ([0; 0; 0; 0; 4], [2; 0; 1; 0; 0], [3; 0; 1; 2; 4], true, Some 0, Some 0, Some 4).
 Proof. vm_compute. reflexivity. Qed.
 
+(* add_node_new leaves class 0 (element 5) without map entries; add(5,5) does not create them; later adds work *)
+Example c18_example_add_node :
+  (do st <- tr_run_ops tr_empty [TNodeNew 5; TAdd 5 5; TAdd 0 1; TNodeNew 1; TAdd 1 5];
+   do a <- tr_contains st 0 5; do b <- tr_contains st 5 5; do c <- tr_contains st 5 0; do n <- tr_count_exact st;
+   Ok (a, b, c, n, disjoint_ok st, dominant_ok st))
+  = Ok (true, true, false, 6, true, true)
+  /\ (do st <- tr_run_ops tr_empty [TNodeNew 5; TAdd 5 5]; Ok (t_conn st, t_rev st)) = Ok ([], []).
+Proof. vm_compute. split; reflexivity. Qed.
+
 Print Assumptions c18_uf_safe. Print Assumptions c18_uf_values. Print Assumptions c18_uf_classes.
 Print Assumptions c18_uf_ok. Print Assumptions c18_rtc_is_closure. Print Assumptions c18_truf_safe.
 Print Assumptions c18_truf_invariants. Print Assumptions c18_truf_contains. Print Assumptions c18_truf_set_of.
 Print Assumptions c18_truf_rev_set_of. Print Assumptions c18_truf_iter_all. Print Assumptions c18_truf_count_exact.
 Print Assumptions c18_truf_is_empty. Print Assumptions c18_example_collapse. Print Assumptions c18_example_uf.
+Print Assumptions c18_truf_safe_with_add_node. Print Assumptions c18_truf_invariants_with_add_node.
+Print Assumptions c18_truf_contains_with_add_node. Print Assumptions c18_truf_set_of_with_add_node.
+Print Assumptions c18_truf_rev_set_of_with_add_node. Print Assumptions c18_truf_iter_all_with_add_node.
+Print Assumptions c18_truf_count_exact_with_add_node. Print Assumptions c18_truf_step_with_add_node.
+Print Assumptions c18_example_add_node.
